@@ -422,14 +422,21 @@ func setField(msg protoreflect.Message, fdesc protoreflect.FieldDescriptor, valu
 		}
 		defer iter.Done()
 
-		list := msg.Mutable(fdesc).List()
-		list.Truncate(0)
+		// Convert all the elements before touching the field, so that
+		// a failed assignment changes nothing, and so that
+		// assigning a field's own list to it (m.r = m.r) is safe.
+		var elems []protoreflect.Value
 		var x starlark.Value
 		for i := 0; iter.Next(&x); i++ {
 			v, err := toProto(fdesc, x)
 			if err != nil {
 				return fmt.Errorf("index %d: %v", i, err)
 			}
+			elems = append(elems, v)
+		}
+		list := msg.Mutable(fdesc).List()
+		list.Truncate(0)
+		for _, v := range elems {
 			list.Append(v)
 		}
 		return nil
@@ -446,8 +453,12 @@ func setField(msg protoreflect.Message, fdesc protoreflect.FieldDescriptor, valu
 
 		// Each value is converted using toProto as usual, passing the key/value
 		// field descriptors to check their types.
-		msg.Clear(fdesc)
-		mutMap := msg.Mutable(fdesc).Map()
+		// All entries are converted before the field is touched (see above).
+		type entry struct {
+			k protoreflect.MapKey
+			v protoreflect.Value
+		}
+		var entries []entry
 		var k starlark.Value
 		for iter.Next(&k) {
 			kproto, err := toProto(fdesc.MapKey(), k)
@@ -469,9 +480,14 @@ func setField(msg protoreflect.Message, fdesc protoreflect.FieldDescriptor, valu
 				return fmt.Errorf("in map field %s, at key %s: %w", fdesc.Name(), k.String(), err)
 			}
 
-			mutMap.Set(kproto.MapKey(), vproto)
+			entries = append(entries, entry{kproto.MapKey(), vproto})
 		}
 
+		msg.Clear(fdesc)
+		mutMap := msg.Mutable(fdesc).Map()
+		for _, e := range entries {
+			mutMap.Set(e.k, e.v)
+		}
 		return nil
 	}
 
